@@ -9,7 +9,7 @@ from ..engine import analyse_env, get_tree
 from ..loader import AnalysisError, FuncInfo, short
 from ..report import Result
 from ..terms import NONE, T, children
-from .common import analyses, txt
+from .common import analyses, env_site as env_site_, txt
 
 EXPLANATION = (
     "Decided over the reset/step call closure of all 23 environments (every function reachable through resolved calls, "
@@ -22,7 +22,7 @@ EXPLANATION = (
     "callback operand, call result) on all paths -- never a parameter of reset/step or an object owned by self (e.g. the "
     "State stored inside a generator); (R4) no Python `if`/`while`/`assert`/`and`/`or`/`not`/bool()/int()/float() on a "
     "value derived from reset's key or step's (state, action) other than through static attributes "
-    "(.shape/.ndim/.dtype/len/isinstance/is None). (R6) no class of the environments, wrappers or specs writes class-level / module-level state in any method, constructors included (a fresh instance with the same configuration behaves the same). (R5) every State leaf whose symbolic shape can be inferred has the same shape after reset and after step, which lax.scan roll-outs, lax.cond (auto-reset) and vmap over states require. These make reset/step deterministic functions of their arguments "
+    "(.shape/.ndim/.dtype/len/isinstance/is None). (R7) no Python-level mutable container (dict/list/set) that __init__ stored on self is handed out as such inside the returned state or timestep (e.g. as TimeStep.extras, which the auto-reset wrappers update in place); R2 also rejects the non-vmap-invariant PRNG implementations (rbg / unsafe_rbg). (R8) the functional wrappers (subclasses of jumanji.wrappers.Wrapper) assign no attribute of self outside __init__. (R6) no class of the environments, wrappers or specs writes class-level / module-level state in any method, constructors included (a fresh instance with the same configuration behaves the same). (R5) every State leaf whose symbolic shape can be inferred has the same shape after reset and after step, which lax.scan roll-outs, lax.cond (auto-reset) and vmap over states require. These make reset/step deterministic functions of their arguments "
     "and traceable, which is the jumanji-side premise of commuting with jit/vmap/scan. Not decided: bitwise equality "
     "of eager/jit/vmap/scan results (XLA semantics). Assumption: jax.disable_jit() is out of scope for R3.")
 
@@ -127,6 +127,11 @@ def truth_static(t: T) -> bool:
         return truth_static(t.args[1])
     if t.kind == "cmp" and t.args[0] in ("is", "isnot"):
         return True   # identity tests never look at array values
+    if t.kind == "call" and t.args[0].kind == "ext" and t.args[0].args[0] in ("builtins.dict", "builtins.list", "builtins.tuple", "builtins.set",
+                                                                        "builtins.frozenset", "collections.OrderedDict", "builtins.sorted"):
+        return True   # a freshly built Python container: its truthiness is its (static) length
+    if t.kind == "call" and t.args[0].kind == "attr" and t.args[0].args[1] in ("copy", "items", "keys", "values") and truth_static(t.args[0].args[0]):
+        return True
     if t.kind == "call" and t.args[0].kind == "ext" and t.args[0].args[0] in ("builtins.len", "builtins.bool", "builtins.isinstance") and t.args[1]:
         return t.args[0].args[0] in ("builtins.isinstance", "builtins.len") or truth_static(t.args[1][0])
     return False
@@ -141,6 +146,9 @@ def ast_forbidden_calls(tree, f: FuncInfo):
             don = [k.arg for k in node.keywords if k.arg in ("donate_argnums", "donate_argnames")]
             if don:
                 out.append((f"buffer donation ({don[0]}): the caller's argument is invalidated after the call", node))
+            for k in node.keywords:
+                if k.arg == "impl" and isinstance(k.value, ast.Constant) and isinstance(k.value.value, str) and "rbg" in k.value.value:
+                    out.append((f"PRNG implementation '{k.value.value}' (not vmap-invariant: batched and per-instance draws differ)", node))
             q = tree.resolve_expr(f.module, node.func)
             if q is None and isinstance(node.func, ast.Name) and hasattr(__import__("builtins"), node.func.id):
                 q = "builtins." + node.func.id
@@ -149,6 +157,65 @@ def ast_forbidden_calls(tree, f: FuncInfo):
         elif isinstance(node, ast.Global):
             out.append(("global " + ",".join(node.names), node))
     return n, out
+
+
+MUTABLE_CTORS = {"dict", "list", "set", "defaultdict", "OrderedDict", "deque", "Counter", "bytearray"}
+
+
+def _mutable_container_expr(init: FuncInfo, e: ast.expr, depth: int = 0) -> bool:
+    """The expression builds a Python-level mutable container (dict / list / set display, comprehension or constructor
+    call); a local name is followed to its assignments inside the same __init__."""
+    if isinstance(e, (ast.Dict, ast.List, ast.Set, ast.DictComp, ast.ListComp, ast.SetComp)):
+        return True
+    if isinstance(e, ast.Call):
+        fn = e.func
+        nm = fn.id if isinstance(fn, ast.Name) else (fn.attr if isinstance(fn, ast.Attribute) else None)
+        return nm in MUTABLE_CTORS
+    if isinstance(e, ast.Name) and depth < 3:
+        for st in ast.walk(init.node):
+            if isinstance(st, ast.Assign) and any(isinstance(t, ast.Name) and t.id == e.id for t in st.targets):
+                if _mutable_container_expr(init, st.value, depth + 1):
+                    return True
+    return False
+
+
+def escaping_self_containers(ea, root: T):
+    """self-rooted attribute terms that are returned *as they are* (through tuples, record fields, .replace copies,
+    selections and dict values -- never through a computation) inside `root`."""
+    out, seen = [], set()
+    stack = [root]
+    while stack:
+        t = stack.pop()
+        if t.id in seen:
+            continue
+        seen.add(t.id)
+        k = t.kind
+        if k == "attr":
+            b = t
+            while b.kind == "attr":
+                b = b.args[0]
+            if b.kind == "self":
+                out.append(t)
+            continue
+        if k in ("tuple", "list"):
+            stack.extend(t.args[0])
+        elif k == "dict":
+            stack.extend(t.args[1])
+        elif k == "construct":
+            stack.extend(v for _, v in t.args[1])
+        elif k == "update":
+            stack.extend((t.args[0], t.args[2]))
+        elif k == "copy":
+            stack.append(t.args[0])
+        elif k == "choice":
+            stack.extend(t.args[2])
+        elif k == "phi":
+            stack.extend(t.args[0])
+        elif k == "bool":
+            stack.extend(t.args[1])   # `x or {}` evaluates to x itself when x is non-empty
+        elif k == "proj" and t.args[0].kind in ("tuple", "choice", "phi"):
+            stack.append(t.args[0])
+    return out
 
 
 def check(tier: str) -> Result:
@@ -235,6 +302,42 @@ def check(tier: str) -> Result:
         res.add("C02.R4", ea.cls.loc(), env, "no Python control flow on traced values",
                 not any(o.ok is False and o.rule == "C02.R4" and o.site.startswith(ea.cls.module.relpath.rsplit('/', 1)[0]) for o in res.obligations),
                 "python-level tests in the closure examined")
+        # ---- R7: no Python-level mutable container owned by self escapes through the returned state / timestep
+        # (wrappers and user code update `timestep.extras` in place: a shared dict couples every call on the object)
+        model = vfg.model
+        n_esc = 0
+        for meth, root in (("reset", ea.reset_result), ("step", ea.step_result)):
+            for t in escaping_self_containers(ea, root):
+                if t.args[0].kind != "self":
+                    continue
+                inits = model.init_assignments(ea.cls, t.args[1])
+                bad = [(i, v) for i, v in inits if _mutable_container_expr(i, v)]
+                site, fn = env_site_(ea, meth)
+                if bad:
+                    i, v = bad[0]
+                    res.add("C02.R7", site, fn, f"returned value aliases self.{t.args[1]}", False,
+                            f"self.{t.args[1]} is a mutable container built once in __init__ ({i.module.relpath}:{v.lineno}: {ast.unparse(v)[:60]}) and is handed out "
+                            f"in the result of every {meth}: an in-place update by a wrapper or the caller (extras[...] = ...) changes earlier results and later calls")
+                    n_esc += 1
+        res.add("C02.R7", ea.cls.loc(), env, "no mutable container owned by self is returned by reset/step", n_esc == 0,
+                "returned state / timestep trees walked through tuples, record fields, copies and selections")
+    # ---- R8: the functional wrappers (subclasses of jumanji.wrappers.Wrapper) keep reset/step pure: no method other
+    # than __init__ assigns an attribute of self (a Python-side counter or cache is read at trace time, so eager, jit
+    # and scan executions would diverge).  The gym / dm_env adapters are stateful by design and are not Wrapper subclasses.
+    from .c15 import mutable_attrs
+    base = tree.classes.get("jumanji.wrappers.Wrapper")
+    if base is None:
+        raise AnalysisError("anchor jumanji.wrappers.Wrapper not found")
+    n_wr = 0
+    for wci in tree.subclasses(base.qual, strict=False):
+        if not wci.module.name == "jumanji.wrappers":
+            continue
+        mut = sorted(mutable_attrs(wci))
+        res.add("C02.R8", wci.loc(), short(wci.qual), "no method other than __init__ assigns an attribute of self", not mut,
+                "functional wrapper" if not mut else f"assigned after construction: {mut}: reset/step depend on the call history of the wrapper object")
+        n_wr += 1
+    if n_wr < 5:
+        raise AnalysisError(f"only {n_wr} functional wrapper classes found (hand-confirmed minimum 5)")
     from . import wiring
     n_cs = wiring.class_state_writes(res, tree, "C02.R6", lambda ci: ci.module.name.startswith("jumanji.environments.") and not ci.module.name.endswith(".types") or ci.module.name in ("jumanji.wrappers", "jumanji.specs"))
     from . import shape_rules
